@@ -13,6 +13,9 @@ enum Phase {
     /// every single-byte substitution of `seeds` small valid encodings
     Neighbourhood { sub: u64, seeds: u64 },
     Mutate { sub: u64, n: u64 },
+    /// every f16 bit pattern at f16/f32/f64 width (part `part` of 4), plus a stratified
+    /// set of f32 patterns at f32/f64 width - at top level, as array element and as map key
+    FloatWidths { part: u16 },
 }
 
 fn case_rng(seed: u64, codec: &str, phase: &str, idx: u64) -> Rng {
@@ -275,6 +278,69 @@ fn run_unit(codec: &Codec, phase: Phase, args: &Args, budget: &Budget, rep: &mut
             }
             true
         }
+        Phase::FloatWidths { part } => {
+            let off = codec.cbor_offset;
+            // a valid encoding supplies the non-CBOR prefix (EINT header etc.), if any
+            let prefix: Vec<u8> = if off == 0 {
+                Vec::new()
+            } else {
+                let mut rng = case_rng(seed, codec.name, "fw", 0);
+                let rt = (codec.roundtrip)(&mut rng);
+                if rt.bytes.len() < off {
+                    return true;
+                }
+                rt.bytes[..off].to_vec()
+            };
+            if !prefix.is_empty() {
+                // envelopes carry length fields; only value-level codecs are driven here
+                return true;
+            }
+            let mut n = 0u64;
+            let mut feed = |float_bytes: &[u8], rep: &mut Report, st: &mut stats::Local| {
+                let mut b = Vec::with_capacity(float_bytes.len() + 4);
+                b.extend_from_slice(float_bytes);
+                check_bytes(codec, &b, "float-width-enumeration", rep, st);
+                b.clear();
+                b.push(0x81);
+                b.extend_from_slice(float_bytes);
+                check_bytes(codec, &b, "float-width-enumeration", rep, st);
+                b.clear();
+                b.push(0xa1);
+                b.extend_from_slice(float_bytes);
+                b.push(0x01);
+                check_bytes(codec, &b, "float-width-enumeration", rep, st);
+                n += 3;
+            };
+            let lo = u32::from(part) * 0x4000;
+            for h in lo..lo + 0x4000 {
+                if h & 0x3ff == 0 && budget.expired() {
+                    rep.evals(n);
+                    return false;
+                }
+                let hb = (h as u16).to_be_bytes();
+                let v = half_to_f64(h as u16);
+                feed(&[0xf9, hb[0], hb[1]], rep, &mut st);
+                let f = (v as f32).to_be_bytes();
+                feed(&[0xfa, f[0], f[1], f[2], f[3]], rep, &mut st);
+                let d = v.to_be_bytes();
+                feed(&[0xfb, d[0], d[1], d[2], d[3], d[4], d[5], d[6], d[7]], rep, &mut st);
+            }
+            // f32 patterns: every (sign, exponent) x 64 mantissa shapes, at f32 and f64 width
+            let shapes: [u32; 16] = [0, 1, 2, 0x1fff, 0x2000, 0x2001, 0x3fff, 0x4000, 0x00_4000, 0x40_0000, 0x40_0001, 0x7f_e000, 0x7f_ffff, 0x55_5555, 0x2a_aaaa, 0x10_0000];
+            for se in (u32::from(part) * 128)..(u32::from(part) * 128 + 128) {
+                for m in shapes {
+                    let bits = (se << 23) | m;
+                    let v32 = f32::from_bits(bits);
+                    let f = bits.to_be_bytes();
+                    feed(&[0xfa, f[0], f[1], f[2], f[3]], rep, &mut st);
+                    let d = f64::from(v32).to_bits().to_be_bytes();
+                    feed(&[0xfb, d[0], d[1], d[2], d[3], d[4], d[5], d[6], d[7]], rep, &mut st);
+                }
+            }
+            rep.evals(n);
+            st.add("float_width_strings", n);
+            true
+        }
         Phase::Mutate { sub, n } => {
             for i in 0..n {
                 if budget.expired() {
@@ -428,6 +494,11 @@ pub fn run(args: &Args, all: Vec<Codec>) -> i32 {
             for sub in 0..2 {
                 units.push((ci, Phase::Neighbourhood { sub, seeds: args.by_tier(1, 8) }));
             }
+            if matches!(c.family, Family::CborAbi) && c.cbor_offset == 0 {
+                for part in 0..4u16 {
+                    units.push((ci, Phase::FloatWidths { part }));
+                }
+            }
         }
         let (msubs, mn) = if c.name == "wal.segment" {
             (1u64, args.by_tier(6u64, 60))
@@ -447,6 +518,7 @@ pub fn run(args: &Args, all: Vec<Codec>) -> i32 {
     units.sort_by_key(|(ci, p)| match p {
         Phase::Roundtrip { sub, .. } => (0u8, *sub, *ci),
         Phase::Exhaust { len, lo, .. } => (1, (*len as u64) << 16 | u64::from(*lo), *ci),
+        Phase::FloatWidths { part } => (1, u64::from(*part), *ci),
         Phase::Mutate { sub, .. } => (2, *sub, *ci),
         Phase::Neighbourhood { sub, .. } => (3, *sub, *ci),
     });
@@ -476,6 +548,7 @@ pub fn run(args: &Args, all: Vec<Codec>) -> i32 {
     rep.count("accepted_and_canonical", stats::total("accepted_and_canonical"));
     rep.count("accepted_not_canonical", stats::total("accepted_not_canonical"));
     rep.count("exhaustive_strings", stats::total("exhaustive_strings"));
+    rep.count("float_width_strings", stats::total("float_width_strings"));
     rep.count("neighbourhood_strings", stats::total("neighbourhood_strings"));
     rep.count("mutations_tried", stats::total("mutations_tried"));
     rep.set("exhaustive_max_len", json!(max_len));
@@ -496,4 +569,19 @@ pub fn run(args: &Args, all: Vec<Codec>) -> i32 {
     }
     let floor = args.by_tier(2_000, 50_000);
     rep.finish(floor)
+}
+
+
+/// IEEE binary16 to f64, written out (no dependency on the crate under test's `half`).
+fn half_to_f64(h: u16) -> f64 {
+    let sign = if h & 0x8000 != 0 { -1.0 } else { 1.0 };
+    let e = i32::from((h >> 10) & 0x1f);
+    let m = f64::from(h & 0x3ff);
+    if e == 0 {
+        sign * m * 2f64.powi(-24)
+    } else if e == 31 {
+        if m == 0.0 { sign * f64::INFINITY } else { f64::NAN }
+    } else {
+        sign * (1.0 + m / 1024.0) * 2f64.powi(e - 15)
+    }
 }
